@@ -31,6 +31,19 @@ class Stub:
         f.seek(4 * self.n, 1)
 
 
+class MarkedStub(Stub):
+    """Stands for arange-like rows of which only the first and the last are written (the rest is a hole of zeros)."""
+
+    def __init__(self, n, first, last):
+        super().__init__(n)
+        self.first, self.last = first, last
+
+    def tofile(self, f):
+        f.write(np.array([self.first], dtype=U32).tobytes())
+        f.seek(4 * (self.n - 2), 1)
+        f.write(np.array([self.last], dtype=U32).tobytes())
+
+
 BOUNDARY = [0, 1, 255, 256, 65535, 65536, 2 ** 32 - 1, 2 ** 32, 2 ** 63 - 1]
 
 
@@ -199,6 +212,70 @@ def check_large_totals(IndxIO, tmp, st):
         os.truncate(path, 0)
 
 
+HUGE = [
+    # entry lengths: payload crossing 2**32 bytes; element totals reaching and crossing 2**32
+    [2 ** 30, 3, 2],
+    [5, 2 ** 30 + 7, 2],
+    [2 ** 31, 2 ** 31],
+    [2 ** 31 + 1, 2 ** 31 - 1, 4, 2],
+]
+
+
+def check_huge(IndxIO, tmp, st, which):
+    """Files of 4 - 16 GiB apparent size (sparse on disk: only the first and last row of each entry are written).
+    C10/C11: the loader finds every entry at its place (length, first and last row).  C12: cuts around every
+    power-of-two residue of the payload size, of the file length and of the row totals never load."""
+    path = os.path.join(tmp, "huge.indx")
+    for lens in HUGE:
+        ent = {(i,): MarkedStub(n, i + 1, 2 ** 32 - 1 - i) for i, n in enumerate(lens)}
+        ex = {"entry_lengths": lens, "common": 0, "rows": "first row i+1, last row 2**32-1-i, zeros between (sparse file)"}
+        payload = 1 + 4 + 1 + 1 + len(lens) * 1 + 1 + 4 * len(lens) + 4 * sum(lens)
+        T = 16 + payload
+        try:
+            with open(path, "wb") as f:
+                IndxIO.save(f, ent, 0, U32)
+        except Exception as e:  # noqa
+            MON.check("indxio.IndxIO.save/no-raise", "raised %s: %s" % (type(e).__name__, e), None, ex)
+            continue
+        if os.path.getsize(path) != T:
+            MON.check("indxio.IndxIO.save/size-field-equals-payload-for-large-totals", "file length %d, expected %d" % (os.path.getsize(path), T), None, ex)
+            continue
+        if which in (None, "C10", "C11"):
+            ob = "indxio.roundtrip/huge-file-entries-found-at-their-place"
+            try:
+                with open(path, "rb") as f:
+                    g, gc, gdt = IndxIO.load(f)
+                got = {k: (len(v), int(v[0]), int(v[-1]), str(v.dtype)) for k, v in g.items()}
+                want = {(i,): (n, i + 1, 2 ** 32 - 1 - i, "uint32") for i, n in enumerate(lens)}
+                MON.check(ob, got == want and gc == 0, lambda: "loaded (length, first, last, dtype) per key: %r, common %r; expected %r" % (got, gc, want), ex, {"total": sum(lens)})
+                del g
+            except Exception as e:  # noqa
+                MON.check(ob, "raised %s: %s" % (type(e).__name__, e), None, ex, {"total": sum(lens)})
+            st["large"] += 1
+        if which in (None, "C12"):
+            cuts = {T - 1, T - 2, T - 4, T - 5, T // 2, 2 ** 32, 2 ** 32 + 15, 2 ** 32 + 16, 2 ** 32 + 17, 2 ** 31, 2 ** 31 + 16, 16, 17, 30}
+            for q in (payload, T, 4 * sum(lens), sum(lens)):
+                for k in (8, 16, 31, 32, 33):
+                    for d in (-1, 0, 1, 2, 16, 17):
+                        cuts.add(16 + q % 2 ** k + d)
+                        cuts.add(q % 2 ** k + d)
+            for k in sorted((c for c in cuts if 0 <= c < T), reverse=True):
+                os.truncate(path, k)
+                try:
+                    with open(path, "rb") as f:
+                        r = IndxIO.load(f)
+                    n_loaded = len(r[0])
+                    del r
+                    MON.check("indxio.IndxIO.load/torn-file-rejected", "load returned %d entries from the first %d of %d bytes" % (n_loaded, k, T),
+                              None, dict(ex, cut=k, length=T), {"cut": "huge"})
+                except Exception:  # noqa
+                    MON.check("indxio.IndxIO.load/torn-file-rejected", True)
+                st["cuts"] += 1
+        os.truncate(path, 0)
+    if os.path.exists(path):
+        os.remove(path)
+
+
 def check_indexes(IndxIO, iindex, tier, shard, nshards, tmp, st):
     path = os.path.join(tmp, "i.indx")
     V = (0, 1, 2, 300)
@@ -249,6 +326,8 @@ def work(args):
             j += 1
         if shard == 0 and which in (None, "C11"):
             check_large_totals(IndxIO, tmp, st)
+        if shard == 1 % nshards:
+            check_huge(IndxIO, tmp, st, which)
         if which in (None, "C10"):
             check_indexes(IndxIO, iindex, tier, shard, nshards, tmp, st)
     finally:
